@@ -135,6 +135,7 @@ class Contract:
         self.ensures = []  # (name, expr)
         self.modifies = []  # (objexpr, [fields])
         self.raises = []  # Raises
+        self.modifies_where = []
         self.invariants = {}  # loop id -> [(name, expr)]
         self.ghost_sets = []  # (objexpr, field, expr)
         self.after_loop = {}  # loop id -> [(name, expr)] asserted (checked, then assumed) at the loop's normal exit
@@ -196,6 +197,10 @@ class Contract:
                     self.internal.add(nm)  # a stepping stone of this unit's proof: not exported to callers
             elif fn == "modifies":
                 self.modifies.append((a[0], [x.value for x in a[1:]]))
+            elif fn == "modifies_where":
+                # modifies_where(lambda x: cond(x), "Class", "field", ...): the fields of every object of the class
+                # that satisfies cond in the pre-state may change (a set of objects, not one)
+                self.modifies_where.append((a[0], a[1].value, [x.value for x in a[2:]]))
             elif fn == "raises":
                 self.raises.append(
                     Raises(
